@@ -103,4 +103,18 @@ CHECKS = {
         rule="case = one value / payload / record sequence, distinct by construction; non-trivial = every case (each compares a decoded value with the expected one)",
         parts=[dict(pkg="./pkg/rdb", harness=["rdb"], test="^TestVerif_C12$", shards=16, budget=dict(quick=60, thorough=900))],
     ),
+    "C02": dict(
+        level="model_checking",
+        engine="seqx",
+        technique="exhaustive cartesian product (entry x configuration x target state) executed on the real restore routine against a model Redis behind the real redigo client; final target state compared with the source's logical value",
+        text="Entries come from the real parser (files written by rdbgen: every type/encoding, sizes around the 100-command batch, a hash delivered in three "
+             "chunks). For the full product of expiry, idle/freq, big-key threshold, key_exists policy, REPLACE support, payload rejection and pre-existing "
+             "key (plus version strings, time shift and hash-tag replacement on one representative per type) RestoreRdbEntry runs against a model Redis (real "
+             "redigo client over an in-memory connection). Oracle: logical equality of the target key, TTL bracketed by the clock before/after the call, "
+             "policy semantics (none: error and target untouched; ignore: untouched; rewrite: source value), no abort (log.Panic or Go panic) for any "
+             "accepted configuration. Coverage is reported per route actually taken (restore, bigkey, quicklist, fallback).",
+        note="trusts mredis' model of RESTORE/BUSYKEY/REPLACE/TTL semantics (A5), rdbgen's logical values and redigo; values with NaN scores and the stream x target-rejects combination are excluded (cannot succeed on any Redis)",
+        rule="case = one point of the product; states = distinct cases; transitions = restore calls; non-trivial = every case (each one compares the final target state with the expected one)",
+        parts=[dict(pkg="./redis-shake/common", harness=["common"], test="^TestVerif_C02$", shards=16, budget=dict(quick=75, thorough=1500), mem_kb=8*1024*1024)],
+    ),
 }
